@@ -77,7 +77,7 @@ def make_items(ctx, only=None):
         if i == 7:
             wl = {'files': [{'path': 'usr/lib64/libalias.so', 'v1': 'alias_v0', 'v2': 'alias_v1'}, {'path': 'usr/lib64/libmathx.so', 'v1': 'mathx_v0', 'v2': None},
                             {'path': 'usr/lib64/libtiny.so', 'v1': 'tiny_v0', 'v2': 'tiny_v1'}, {'path': 'usr/lib64/libcxx.so', 'v1': None, 'v2': 'cxx_v2'}],
-                  'format': 'deb', 'abignore': 'first', 'options': ['--no-default-suppression'], 'splitdbg': True}   # Debian packages with -dbg packages
+                  'format': 'deb' if K.have_deb() else 'tar.gz', 'abignore': 'first', 'options': ['--no-default-suppression'], 'splitdbg': True}   # Debian packages with -dbg packages
         if len(set(K.side_prefixes(wl))) != 1:
             raise C.InfraError('workload %s leaves the region the reference model is valid in: ELF directory prefixes %r' % (name, K.side_prefixes(wl)))
         it = c31.prepare_item(ctx, name, wl, variant='plain')
